@@ -18,6 +18,9 @@ SHAPES = [
     ("option-is-none-only", "fn main() { let o: Option<%(T)s> = witness::A; assert!(is_none::<%(T)s>(None)); match o { None => (), Some(v: %(T)s) => (), }; }"),
     ("list-unused", "fn main() { let l: List<%(T)s, 4> = witness::A; }"),
     ("array-one-element-used", "fn main() { let [a, b, c]: [(u8, %(T)s); 3] = witness::A; let (x, y): (u8, %(T)s) = b; assert!(jet::eq_8(x, x)); }"),
+    ("destructured-unused", "fn main() { let (a, b): (%(T)s, %(T)s) = witness::A; let first: %(T)s = a; let second: %(T)s = b; }"),
+    ("destructured-array-unused", "fn main() { let [a, b, c]: [%(T)s; 3] = witness::A; let t: (%(T)s, %(T)s) = (c, a); }"),
+    ("passed-through-functions", "fn id(x: %(T)s) -> %(T)s { x }\nfn main() { let y: %(T)s = id(id(witness::A)); }"),
     ("two-witnesses-one-used", "fn main() { let p: (%(T)s, u8) = (witness::A, witness::B); let (q, r): (%(T)s, u8) = p; assert!(jet::eq_8(r, r)); }"),
 ]
 
@@ -31,6 +34,10 @@ def shape_type(kind, T):
         return {"A": ("L", T, 2)}
     if kind == "array-one-element-used":
         return {"A": ("A", ("T", (("U", 3), T)), 3)}
+    if kind == "destructured-unused":
+        return {"A": ("T", (T, T))}
+    if kind == "destructured-array-unused":
+        return {"A": ("A", T, 3)}
     if kind == "two-witnesses-one-used":
         return {"A": T, "B": ("U", 3)}
     return {"A": T}
